@@ -129,6 +129,8 @@ type CLIResult struct {
 	Signal         string
 	CPUExceeded    bool // killed by RLIMIT_CPU
 	HarnessTimeout bool // the wall-clock guard fired: observation is inconclusive
+	MaxRSSKB       int64 // peak resident set of the child (rusage), 0 if unknown
+	CPUMillis      int64 // user + system CPU time of the child (rusage)
 }
 
 // CLIOpts configures a CLI run.
@@ -194,6 +196,12 @@ func (c *Ctx) RunCLI(o CLIOpts) *CLIResult {
 	res := &CLIResult{Stdout: so.Bytes(), Stderr: se.Bytes(), HarnessTimeout: timedOut}
 	if o.StdoutFile != "" {
 		res.Stdout, _ = os.ReadFile(o.StdoutFile)
+	}
+	if cmd.ProcessState != nil {
+		if ru, ok := cmd.ProcessState.SysUsage().(*syscall.Rusage); ok && ru != nil {
+			res.MaxRSSKB = int64(ru.Maxrss)
+			res.CPUMillis = (ru.Utime.Sec+ru.Stime.Sec)*1000 + int64(ru.Utime.Usec+ru.Stime.Usec)/1000
+		}
 	}
 	if timedOut {
 		c.Flake("wall-clock guard fired around a CLI child process")
